@@ -16,6 +16,7 @@ import (
 )
 
 type rtCall struct {
+	body  []byte // what the caller's request carries
 	tag   string
 	done  bool
 	retry bool
@@ -36,12 +37,17 @@ func c11RoundTrip(r *vf.Run, t *testing.T, id string, rng *rand.Rand) {
 		failed = true
 	}
 	res := rt.RunBubble(t, id, 90*time.Second, func() {
-		env, err := rt.NewRTEnv(id, http2.ClientOpts{MaxResponseTime: 30 * time.Second}, []wire.Setting{{ID: 3, Val: 100}, {ID: 4, Val: 1 << 20}})
+		// the first connection's server may keep its stream windows small, so that uploads are part way through (and stuck)
+		// when the fault comes; every later connection is generous
+		win0 := uint32([]int{1 << 20, 1 << 20, 1000, 0}[rng.Intn(4)])
+		replay["first_connection_stream_window"] = win0
+		env, err := rt.NewRTEnv(id, http2.ClientOpts{MaxResponseTime: 30 * time.Second}, []wire.Setting{{ID: 3, Val: 100}, {ID: 4, Val: win0}})
 		if err != nil {
 			fail("configure-client", err.Error())
 			return
 		}
 		defer env.Close()
+		env.Settings = []wire.Setting{{ID: 3, Val: 100}, {ID: 4, Val: 1 << 20}}
 		var mu sync.Mutex
 		calls := make([]*rtCall, n)
 		methods := []string{"GET", "POST", "PUT", "DELETE"}
@@ -50,13 +56,28 @@ func c11RoundTrip(r *vf.Run, t *testing.T, id string, rng *rand.Rand) {
 			calls[i] = c
 			m := methods[rng.Intn(len(methods))]
 			body := rng.Intn(2) == 0
+			mode := rng.Intn(4) // 0, 1: buffered; 2: streamed, declared length; 3: streamed, unknown length
+			chunk := []int{0, 100, 700}[rng.Intn(3)]
+			if body && m != "GET" {
+				c.body = []byte("payload of " + c.tag)
+				if rng.Intn(2) == 0 {
+					c.body = append(c.body, make([]byte, 1500+rng.Intn(6000))...)
+					rng.Read(c.body[len("payload of "+c.tag):])
+				}
+			}
 			go func() {
 				req := &fasthttp.Request{}
 				req.SetRequestURI("https://h2v.example/" + c.tag)
 				req.Header.SetMethod(m)
 				req.Header.Add("x-vtag", c.tag)
-				if body && m != "GET" {
-					req.SetBody([]byte("payload of " + c.tag))
+				switch {
+				case c.body == nil:
+				case mode == 2:
+					req.SetBodyStream(&slowReader{b: c.body, chunk: chunk}, len(c.body))
+				case mode == 3:
+					req.SetBodyStream(&slowReader{b: c.body, chunk: chunk}, -1)
+				default:
+					req.SetBody(c.body)
 				}
 				retry, err := env.Client.RoundTrip(env.HC, req, c.res)
 				mu.Lock()
@@ -86,6 +107,18 @@ func c11RoundTrip(r *vf.Run, t *testing.T, id string, rng *rand.Rand) {
 			c.P.Write(out)
 		}
 		seen0 := rt.SeenOn(c0.P)
+		// grant lets the uploads on the given streams of connection 0 finish, and returns the requests as they then stand
+		grant := func(upTo uint32) []*rt.SeenRequest {
+			out := rt.WindowUpdate(0, 1<<24)
+			for _, s := range seen0 {
+				if s.Stream <= upTo && s.EndStream == 0 {
+					out = append(out, rt.WindowUpdate(s.Stream, 1<<20)...)
+				}
+			}
+			c0.P.Write(out)
+			rt.Wait()
+			return rt.SeenOn(c0.P)
+		}
 		perm := rng.Perm(len(seen0))
 		subset := perm[:rng.Intn(len(perm)+1)]
 		inSubset := map[int]bool{}
@@ -99,7 +132,16 @@ func c11RoundTrip(r *vf.Run, t *testing.T, id string, rng *rand.Rand) {
 				last = []uint32{0, seen0[rng.Intn(len(seen0))].Stream, seen0[len(seen0)-1].Stream, 1<<31 - 1}[rng.Intn(4)]
 			}
 			replay["last_stream_id"] = last
+			if rng.Intn(3) == 0 {
+				c0.P.Write(rt.GoAway(1<<31-1, 0, "shutting down")) // graceful shutdown: the real last-stream-id follows
+				if rng.Intn(2) == 0 {
+					rt.Wait()
+				}
+				replay["graceful_first_goaway"] = true
+			}
 			c0.P.Write(append(rt.GoAway(last, uint32([]int{0, 1, 11}[rng.Intn(3)]), "bye"), rt.Ping(false, "afterGA!")...))
+			rt.Wait()
+			seen0 = grant(last) // the streams the server still stands by may finish their uploads
 			for i, s := range seen0 {
 				tag, _ := s.Get("x-vtag")
 				if s.Stream > last {
@@ -109,7 +151,19 @@ func c11RoundTrip(r *vf.Run, t *testing.T, id string, rng *rand.Rand) {
 					answer(c0, s)
 				}
 			}
+			if rng.Intn(3) == 0 {
+				// ... and then the connection is lost with some of the streams the server stood by still unanswered: those were
+				// not disclaimed, the server may have processed them, they must not go out again
+				rt.Wait()
+				if rng.Intn(2) == 0 {
+					c0.Raw.Close()
+				} else {
+					c0.Raw.Reset()
+				}
+				replay["connection_lost_after_goaway"] = true
+			}
 		case "refused":
+			seen0 = grant(1<<31 - 1)
 			for i, s := range seen0 {
 				tag, _ := s.Get("x-vtag")
 				if inSubset[i] {
@@ -121,6 +175,7 @@ func c11RoundTrip(r *vf.Run, t *testing.T, id string, rng *rand.Rand) {
 				}
 			}
 		case "rst":
+			seen0 = grant(1<<31 - 1)
 			for i, s := range seen0 {
 				if inSubset[i] {
 					c0.P.Write(rt.RstStream(s.Stream, uint32([]int{2, 8, 11}[rng.Intn(3)])))
@@ -130,6 +185,7 @@ func c11RoundTrip(r *vf.Run, t *testing.T, id string, rng *rand.Rand) {
 				}
 			}
 		case "conn-loss":
+			seen0 = grant(1<<31 - 1)
 			for i, s := range seen0 {
 				if inSubset[i] {
 					answer(c0, s)
@@ -142,12 +198,14 @@ func c11RoundTrip(r *vf.Run, t *testing.T, id string, rng *rand.Rand) {
 				c0.Raw.Reset()
 			}
 		case "silence":
+			seen0 = grant(1<<31 - 1)
 			for i, s := range seen0 {
 				if inSubset[i] {
 					answer(c0, s)
 				}
 			}
 		case "none":
+			seen0 = grant(1<<31 - 1)
 			for _, s := range seen0 {
 				answer(c0, s)
 			}
@@ -176,10 +234,19 @@ func c11RoundTrip(r *vf.Run, t *testing.T, id string, rng *rand.Rand) {
 		rt.Wait()
 		// arrivals per tag, in connection order
 		arrivals := map[string][]string{}
+		bodies := map[string][]byte{}
+		for _, c := range calls {
+			bodies[c.tag] = c.body
+		}
 		for _, c := range env.Conns() {
 			for _, s := range rt.SeenOn(c.P) {
 				tag, _ := s.Get("x-vtag")
 				arrivals[tag] = append(arrivals[tag], fmt.Sprintf("conn %d stream %d", c.Index, s.Stream))
+				// a request that arrives complete (END_STREAM seen) must be the request the caller made, on whichever connection and
+				// at whichever attempt: a re-sent request is still that request
+				if want, known := bodies[tag]; known && s.EndStream != 0 && string(s.Body) != string(want) {
+					fail("request-arrived-changed", fmt.Sprintf("fault %s: request %s arrived complete on connection %d stream %d (arrival #%d) with a body of %d bytes, the caller's request has %d bytes (content-length field: %q)", fault, tag, c.Index, s.Stream, len(arrivals[tag]), len(s.Body), len(want), func() string { v, _ := s.Get("content-length"); return v }()))
+				}
 			}
 		}
 		mu.Lock()
